@@ -134,6 +134,8 @@ structure St where
   j : List DOp := []
   flushEnds : List (Nat × Bytes) := []
   pending : List String := []
+  /-- explicit batch objects: id ↦ (DB, operations so far) -/
+  batches : List (String × Name × Batch) := []
   /-- first divergence between the model's and the implementation's durable ops (reported at `crashes`) -/
   mismatch : Option String := none
 
@@ -163,6 +165,29 @@ def modelStep (st : St) (ws : List String) (impl : List DOp) : Option (St × Lis
   let marksClean := impl.filterMap (fun o => match o with | .putMark n m => if isDirty m then none else some n | _ => none)
   let drops := impl.filterMap (fun o => match o with | .drop n => some n | _ => none)
   let writes := impl.filterMap (fun o => match o with | .write n _ => some n | _ => none)
+  let kOf := fun (args : List String) => unhex ((kv args "k").getD "-")
+  let setBatch := fun (b : String) (x : Name × Batch) => { st with batches := (b, x) :: st.batches.filter (fun p => p.1 != b) }
+  match ws with
+  | ["bnew", n, b] =>
+    -- the handle is obtained with `OpenDB(n)`; the batch itself is volatile
+    if st.mode == "pool" then
+      some ({ setBatch b (n, []) with pool := (st.pool.step (.open n)).1 }, [])
+    else
+      let (f', ops) := st.flg.step (.open n)
+      some ({ setBatch b (n, []) with flg := f' }, ops)
+  | "bput" :: b :: args =>
+    (st.batches.lookup b).map (fun x => (setBatch b (x.1, x.2 ++ [(kOf args, some (unhex ((kv args "v").getD "-")))]), []))
+  | "bdel" :: b :: args =>
+    (st.batches.lookup b).map (fun x => (setBatch b (x.1, x.2 ++ [(kOf args, none)]), []))
+  | ["bwrite", b] =>
+    (st.batches.lookup b).map (fun x =>
+      if st.mode == "pool" then
+        -- `cacheBatch.Write`: the operations go into the flushable's cache one by one
+        ({ st with pool := x.2.foldl (fun p kv => (p.step (.put x.1 kv.1 kv.2)).1) st.pool }, [])
+      else
+        let (f', ops) := st.flg.step (.write x.1 x.2)
+        ({ st with flg := f' }, ops))
+  | _ =>
   if st.mode == "pool" then
     let op : Option PoolOp := match ws with
       | ["open", n] => some (.open n)
@@ -250,6 +275,7 @@ def step (st : St) (ws : List String) : St × String :=
     match st.pending, out with
     | ["mode", m], _ => ({ st' with mode := m }, "ok")
     | _, ["nomode"] => (st', "ok")
+    | _, ["nobatch"] => (st', "ok")
     | ["crashes"], "r" :: results => (st', judgeCrashes st results)
     | op, "j" :: items =>
       let implOps := if items == ["-"] then some [] else
@@ -259,7 +285,7 @@ def step (st : St) (ws : List String) : St × String :=
       match implOps with
       | none => (st', "FAIL unparsable journal")
       | some impl =>
-        let st1 := { st' with names := (impl.map opName ++ (op.drop 1).take 1).foldl addNew st'.names,
+        let st1 := { st' with names := (impl.map opName ++ (if (op.headD "").startsWith "b" && op.headD "" != "batch" then (if op.headD "" == "bnew" then (op.drop 1).take 1 else []) else (op.drop 1).take 1)).foldl addNew st'.names,
                               keys := impl.foldl (fun ks o => match o with
                                 | .write _ b => b.foldl (fun ks p => addNew ks p.1) ks
                                 | _ => ks) st'.keys }
